@@ -425,7 +425,9 @@ CHECKS = {
             " Wave 5: on every second cut, after the crash or failed "
             "write, the repository is first written again on request "
             "(RepositoryManager::write_repository): that write must succeed "
-            "and leave the rsync tree equal to the snapshot."
+            "and leave the rsync tree equal to the snapshot. Cuts that "
+            "create a file are additionally realised as TORN writes: the "
+            "failing (or crashing) creation leaves an empty file behind."
         ),
         "assumptions": COMMON_ASSUMPTIONS + [
             "a crash loses everything after a mutation boundary; torn "
